@@ -252,6 +252,14 @@ def join(a, b):
     return VS.fin(a.vals | b.vals)
   if a.kind == "po2" and b.kind == "po2":
     return VS.po2(a.signs | b.signs, join(a.exps, b.exps))
+  if a.kind == "po2" and b.kind == "fin":
+    pb = fin_as_po2(b)
+    if pb is not None:
+      return join(a, pb)
+  if b.kind == "po2" and a.kind == "fin":
+    pa = fin_as_po2(a)
+    if pa is not None:
+      return join(pa, b)
   ga, gb = a.as_grid(), b.as_grid()
   if ga.g is None and gb.g is None:
     return VS.fin([ga.o, gb.o])
@@ -267,6 +275,27 @@ def join(a, b):
     g = fgcd(fgcd(ga.g, gb.g), ga.o - gb.o)
     o = ga.o
   return VS.grid(g, o, _min(ga.lo, gb.lo), _max(ga.hi, gb.hi))
+
+
+def fin_as_po2(a):
+  """A finite set all of whose elements are +-2**e, as a po2 set (signs x
+  exponents, which over-approximates only when signs and exponents mix)."""
+  signs = set()
+  exps = set()
+  for v in a.vals:
+    if v == 0:
+      return None
+    e = log2_exact(abs(v))
+    if e is None:
+      return None
+    signs.add(1 if v > 0 else -1)
+    exps.add(e)
+  if len(signs) > 1:
+    # only exact when every exponent occurs with both signs
+    for v in list(a.vals):
+      if -v not in a.vals:
+        return None
+  return VS.po2(signs, VS.fin(exps))
 
 
 def join_all(vs):
@@ -393,6 +422,11 @@ def recip(a):
     return VS.real(Fraction(0) if hi is None else 1 / hi, 1 / lo)
   if hi is not None and hi < 0:
     return VS.real(1 / hi, Fraction(0) if lo is None else 1 / lo)
+  # 0 in the closure: 1/0 is an unbounded value of the operand's sign
+  if lo is not None and lo >= 0:
+    return VS.real(Fraction(0) if (hi is None or hi == 0) else 1 / hi, None)
+  if hi is not None and hi <= 0:
+    return VS.real(None, Fraction(0) if (lo is None or lo == 0) else 1 / lo)
   return VS.real()
 
 
